@@ -36,6 +36,28 @@ EnvironmentCoherent == MarkersCoherent(p)
 \* C18: platform names round-trip
 NamesRoundTrip == Parse(Str(p)) = p
 
+\* Names: every documented platform name (aliases, every choices() pattern instantiated over the grid, the
+\*   alternative architecture spellings) --Resolve--> the platform it denotes.  `tags` holds the name's tokens.
+ArchSpellings(os) == IF os = "windows" THEN { <<"amd64">>, <<"x86">>, <<"arm64">>, <<"i686">>, <<"i386">>, <<"x86", "64">>, <<"aarch64">> }
+                     ELSE { <<"amd64">>, <<"arm64">>, <<"x86", "64">>, <<"aarch64">>, <<"i686">> }
+DocNames == Aliases \cup { Str(c) : c \in Configs }
+            \cup { <<c.os, c.major, c.minor>> \o a : c \in { d \in Configs : d.os # "windows" /\ d.arch = "x86_64" }, a \in ArchSpellings("x") }
+            \cup { <<"windows">> \o a : a \in ArchSpellings("windows") }
+Unresolved == Cfg("?", 0, 0, "?")
+NamesInit == tags \in DocNames /\ phase = "name" /\ p = Unresolved /\ q = p /\ want = <<>> /\ obs = NoObs
+NamesNext == /\ phase = "name" /\ phase' = "resolved"
+             /\ p' = ParseName(tags) /\ q' = p'
+             /\ UNCHANGED <<tags, want, obs>>
+NamesSpec == NamesInit /\ [][NamesNext]_pvars
+\* C18: every documented name resolves to a platform; aliases to platforms of the documented families whose own
+\*   name resolves to the same platform; `macos` and `macos_arm64` are the same target
+AllNamesResolve == phase = "resolved" => p.os # "?" /\ p.arch # "?"
+AliasesResolve == phase = "resolved" /\ Len(tags) <= 3 /\ tags \in Aliases =>
+                    /\ p.os \in {"manylinux", "musllinux", "macos", "windows"}
+                    /\ ParseName(Str(p)) = p
+                    /\ ParseName(<<"macos">>) = ParseName(<<"macos", "arm64">>)
+ResolvedRoundTrip == phase = "resolved" => ParseName(Str(p)) = p
+
 PairsInit == p \in Configs /\ q \in Configs /\ phase = "pair" /\ tags = <<>> /\ want = <<>> /\ obs = NoObs
 PairsNext == /\ phase = "pair" /\ phase' = "cmp"
              /\ obs' = [NoObs EXCEPT !.cmp = PlatCompare(p, q),
